@@ -36,7 +36,19 @@ monitor c cache.lock
   // physical bound: the live keys and values fit in memory, so the byte total
   // cannot wrap around
   assume_invariant size_physical: c.size <= 4611686018427387904
-  assume_invariant sentinel_linked: wfNode(addr(c, "usage")) && isNode(c, addr(c, "usage").next) && isNode(c, addr(c, "usage").prev)
+  // the list's two ends are entries of this cache (or the list is empty):
+  // proved at every Unlock - in particular nothing that is not (yet) stored
+  // in the map is reachable as the next victim or as the newest entry while
+  // the lock is released
+  invariant sentinel_linked: wfNode(addr(c, "usage"))
+  invariant oldest_is_entry: isNode(c, addr(c, "usage").next)
+  invariant newest_is_entry: isNode(c, addr(c, "usage").prev)
+  // without LRU nothing is ever linked
+  invariant no_lru_empty_list: !c.conf.EnableLRU ==> addr(c, "usage").next == addr(c, "usage") && addr(c, "usage").prev == addr(c, "usage")
+  // one step further along the list: assumed (the full "every node's
+  // neighbours are nodes" needs reachability; its quantified form sends the
+  // solvers into a matching loop)
+  assume_invariant sentinel_second_level: isNode(c, addr(c, "usage").next.next) && isNode(c, addr(c, "usage").prev.prev)
   invariant items_keyed: forall k: haskey(c.items, k) ==> mapget(c.items, k) != nil && strid(mapget(c.items, k).key) == k
   assume_invariant lru_items_linked: c.conf.EnableLRU ==> (forall k: haskey(c.items, k) ==> wfNode(addr(mapget(c.items, k), "used")))
 
